@@ -114,6 +114,13 @@ def run(m: Model, r: Report, tier: str) -> None:
         r.check(ok, "R3", f"{fn.qualname}#flag-after-session-change@{s.lineno}",
                 "after a successful session change the scan can probe the next candidate without recovering the stack (it would probe from the "
                 "wrong session): " + " -> ".join(repr(g.nodes[p]) for p in path[-4:]), loc=fn.loc)
+    # an ECU reset requested by the scanner may take effect even when its reply is lost: every path from the reset request to the recovery test sets the flag
+    resets = [n for n in g.nodes.values() if n.kind in ("stmt", "cond") and n.ast is not None and ".ecu_reset(" in ast.unparse(n.ast) and any(isinstance(x, ast.Await) for x in ast.walk(n.ast))]
+    flag_tests = {n.id for n in g.nodes.values() if n.kind == "cond" and n.ast is blk.test}
+    for rn in resets:
+        okr, pathr = g.must_pass(rn.id, set_true, flag_tests, skip_edge=no_await_exc)
+        r.check(okr, "R3", f"{fn.qualname}#flag-after-reset", "after the scanner asked the ECU to reset, the next probe can be sent without recovering the stack (e.g. when the reset reply "
+                "is lost and the scanner reconnects): the ECU is in its default session, the probe is attributed to the stack: " + " -> ".join(repr(g.nodes[p]) for p in pathr[-4:]), loc=fn.loc)
     # the flag test precedes every probe
     for h in heads:
         tests = {n.id for n in g.nodes.values() if n.kind == "cond" and n.ast is blk.test}
@@ -209,6 +216,26 @@ def run(m: Model, r: Report, tier: str) -> None:
             f"the request constructor's range check refuses {[hex(v) for v in refused[:4]]} of the probe domain 0x01..0x7F: the scanner's catch-all only logs the "
             "ValueError, so these sessions are never requested and are missing from the result", loc="src/gallia/services/uds/core/utils.py")
     check_unravel_inclusive(m, r, "R2")
+    # ... and the request class the probe is built with: every range guard in its constructor admits the whole probe domain
+    dsc = m.require_class("gallia.services.uds.core.service.DiagnosticSessionControlRequest")
+    dinit = dsc.methods.get("__init__")
+    if dinit is None:
+        raise AnalysisError(f"{dsc.qualname}: constructor not found")
+    spar = dinit.params()[1] if len(dinit.params()) > 1 else None
+    narrowed = []
+    for c_ in ast.walk(dinit.node):
+        if isinstance(c_, ast.Call) and ast.unparse(c_.func) == "check_range" and len(c_.args) == 4 and ast.unparse(c_.args[0]) == spar:
+            lo_, hi_ = m.try_fold(dinit.module, c_.args[2]), m.try_fold(dinit.module, c_.args[3])
+            if not (isinstance(lo_, int) and isinstance(hi_, int)):
+                raise AnalysisError(f"{dinit.qualname}: cannot evaluate {ast.unparse(c_)}")
+            if lo_ > 1 or hi_ < 0x7F:
+                narrowed.append(f"{lo_:#x}..{hi_:#x}")
+        elif isinstance(c_, ast.Call) and isinstance(c_.func, ast.Name) and c_.func.id.startswith("check_") and c_.func.id not in ("check_range", "check_sub_function") and \
+                c_.args and ast.unparse(c_.args[0]) == spar:
+            narrowed.extend(f"{c_.func.id} refuses {v:#x}" for v in accepts_domain(m, f"gallia.services.uds.core.utils.{c_.func.id}", range(1, 0x80))[:2])
+    r.check(spar is not None and not narrowed, "R5", f"{dinit.qualname}#accepts-probe-domain", f"the DiagnosticSessionControl request constructor only admits {narrowed}: "
+            "sessions of the probe domain 0x01..0x7F outside of it raise inside set_session, the scanner's catch-all logs it, and the session (and everything behind it) is missing",
+            loc=dsc.loc)
 
     # ---------------------------------------------------------------- R6
     hh = m.require_function(f"{SCAN}.SessionsScanner.set_session_with_hooks_handling")
